@@ -89,20 +89,21 @@ Theorem C18_flint_float : forall f,
 Proof. exact flint_float_spec. Qed.
 Print Assumptions C18_flint_float.
 
-Theorem C18_flint_int : forall z f,
-  int_to_float z = FOk f -> flint (NI z) = Ok (NI (sf_to_Z (FloatOps.Prim2SF f))).
+(* every Python int, of any size, is returned unchanged *)
+Theorem C18_flint_int : forall z, flint (NI z) = Ok (NI z).
 Proof. exact flint_int_spec. Qed.
 Print Assumptions C18_flint_int.
 
-(* uses the standard library's FloatAxioms.Prim2SF_SF2Prim *)
 Theorem C18_flint_small_int : forall z, (Z.abs z <= 2 ^ 53)%Z -> flint (NI z) = Ok (NI z).
 Proof. exact flint_small_int. Qed.
 Print Assumptions C18_flint_small_int.
 
-(* the recorded finding: beyond 2^53 the int returned need not be the argument *)
-Theorem C18_flint_bigint_refuted : exists z z', flint (NI z) = Ok (NI z') /\ z' <> z.
-Proof. exact flint_bigint_refuted. Qed.
-Print Assumptions C18_flint_bigint_refuted.
+(* the correctly rounded int -> float conversion (int * float inside convert_units) is exact below 2^53;
+   uses the standard library's FloatAxioms.Prim2SF_SF2Prim *)
+Theorem C18_int_to_float_small_exact : forall z, z <> 0%Z -> (Z.abs z < 2 ^ 53)%Z ->
+  exists f, int_to_float z = FOk f /\ sf_to_Z (FloatOps.Prim2SF f) = z.
+Proof. exact int_to_float_small_exact. Qed.
+Print Assumptions C18_int_to_float_small_exact.
 
 (* convert_units on a float: within 3 * 2^-53 of the exact conversion when neither
    intermediate (x = v * scale a, y = x / scale b) overflows or leaves the normal range.
